@@ -270,6 +270,9 @@ def py_eq(a, b):
         return py_eq(tuple(a.fields.values()), tuple(b.fields.values()))
     if not isinstance(a, SV) and not isinstance(b, SV):
         return a == b
+    for x, y in ((a, b), (b, a)):
+        if isinstance(x, SV) and x.ty.kind == "u" and x.ty.name in STR_VIEW and (isinstance(y, (str, EnumVal)) or (isinstance(y, SV) and y.ty == TName)):
+            return py_eq(STR_VIEW[x.ty.name](x), y)  # str subclasses (lark Token) compare by text
     if a is None or b is None:
         sv = a if isinstance(a, SV) else b
         if sv.ty.kind == "opt":
@@ -358,6 +361,7 @@ def arith(op, a, b):
 
 
 SYM_ARITH: dict = {}  # sort name -> handler(op, a, b)
+STR_VIEW: dict = {}  # sort name -> callable(sv) -> SV Name: objects that are str subclasses
 TRUTH: dict = {}  # sort name -> callable(sv) -> z3 Bool (python truthiness of such objects)
 NONE_TEST: dict = {}  # sort name -> callable(sv) -> SV bool  (value may be None)
 SYM_COMPARE: dict = {}
@@ -418,6 +422,9 @@ def contains(container, x):
             return SV(TBool, core.dict_has(container, lift(x, container.ty.args[0])))
         if k == "seq":
             return SV(TBool, z3.Contains(container.t, z3.Unit(lift(x, container.ty.args[0]).t)))
+        if container.ty == TName:
+            f = core.uf("str.contains", TName.sort(), TName.sort(), z3.BoolSort())
+            return SV(TBool, f(container.t, lift(x, TName).t))
         raise Unsupported(f"'in' on {container.ty!r}")
     if isinstance(container, str):
         if isinstance(x, SV):
